@@ -333,6 +333,12 @@ def rand_behaviour(rng, idx, gloss, cls, force=None):
     if force == "array-bounds":
         forced = Var("arr", "real", 2)
         b.svs.append(forced)
+        fl = Var("flg", "real", 1)
+        fl.forced_bounds = Bnd("0.12345678901234567", "7.6543210987654321")
+        b.svs.append(fl)
+        fp = Var("pfl", "real", 1)
+        fp.dflt = ["3.1415926535897931"]
+        b.pars.append(fp)
     for v in b.mps + b.svs + b.asvs + b.esvs + b.pars:
         if v.tid == 0:           # bounds of tensorial variables apply to components: not generated
             if v in b.pars:
@@ -340,6 +346,10 @@ def rand_behaviour(rng, idx, gloss, cls, force=None):
             finalize_bounds(rng, v, b.unit_system, gloss, cls)
         if v is forced:
             v.bounds, v.phys = Bnd("0", "1"), None
+        if getattr(v, "forced_bounds", None):
+            v.bounds, v.phys = v.forced_bounds, None
+        if v.name == "pfl":
+            v.bounds, v.dflt = None, ["3.1415926535897931"]
         if v in b.pars and v.bounds:      # the default value must lie inside the bounds
             lo = float(v.bounds.lo) if v.bounds.lo is not None else None
             hi = float(v.bounds.hi) if v.bounds.hi is not None else None
@@ -409,6 +419,9 @@ def rand_matprop(rng, idx, gloss, cls):
         m.pars.append(v)
     for v in m.inputs + [m.output]:
         finalize_bounds(rng, v, m.unit_system, gloss, cls)
+    for v in m.pars:            # no @Bounds on parameters in this DSL: only what the glossary gives
+        if m.unit_system and v.extkind == "glossary" and v.ext in gloss:
+            v.phys_inherited = Bnd(*gloss[v.ext])
     m.text = matprop_text(m, rng)
     return m
 
@@ -576,6 +589,7 @@ def run(ck):
             emitted_tables[b.name] = parse_symbols(open(src).read())
         em = emitted_tables[b.name]
         other_prefixes = [b.f + "_" + x + "_" for x in b.blocks() if x is not None]
+        accounted = set()
         for name, val in sorted(model.items()):
             stats["symbols_compared"] += 1
             got = em.get(name)
@@ -584,6 +598,7 @@ def run(ck):
             kind = classify_symbol(name)
             hist["text:" + kind] = hist.get("text:" + kind, 0) + 1
             close = [n for n in em if n.replace("__", "_") == name]
+            accounted.update(close)
             what = "symbol %s: declared %s, generated source has %s%s" % (
                 name, show_val(val), show_val(got) if got is not None else "no such symbol",
                 " (but defines %s)" % ", ".join(close) if close and got is None else "")
@@ -592,7 +607,7 @@ def run(ck):
                   "mfront_file": b.text})
         # emitted symbols of the modelled families that the model does not have
         for name, val in sorted(em.items()):
-            if not name.startswith(pfx + "_") or not MODELLED.search(name) or name in model:
+            if not name.startswith(pfx + "_") or not MODELLED.search(name) or name in model or name in accounted:
                 continue
             if h is None and any(name.startswith(o) for o in other_prefixes):
                 continue
@@ -630,7 +645,7 @@ def run(ck):
             exp[m.f + "_mfront_material"] = "t:" + m.material
         for p in m.pars:
             exp["%s_%s_ParameterDefaultValue" % (m.f, p.ext)] = "r:" + bits(float(p.dflt[0]))
-        for v in m.inputs:
+        for v in m.inputs + m.pars:
             for sfx, t in zip(SFX, expected_bounds(v).split(",")):
                 if t != "-":
                     exp["%s_%s_%s" % (m.f, v.ext, sfx)] = "r:" + t
@@ -719,6 +734,7 @@ def run(ck):
             for v in m.inputs:
                 ask(mplib, m.f, None, "mpbounds " + v.ext, expected_bounds(v), "mp-bounds", dict(rep, variable=v.ext))
             for p in m.pars:
+                ask(mplib, m.f, None, "mpbounds " + p.ext, expected_bounds(p), "mp-bounds", dict(rep, variable=p.ext))
                 ask(mplib, m.f, None, "mpdefault " + p.ext, bits(float(p.dflt[0])), "mp-default", dict(rep, variable=p.ext, declared_default=p.dflt[0]))
         # setParameter = regeneration with that default value (twin law), compared on calls
         for (m, p, newv, tname) in twins:
@@ -910,6 +926,15 @@ def compare_range(txt, b):
     return ok_lo and ok_hi
 
 
+def close_to(printed, declared):
+    """the printed text is the declared value rounded to a few digits (ranges: every number)"""
+    pn = re.findall(r"-?\d+\.?\d*(?:[eE][-+]?\d+)?", printed)
+    dn = re.findall(r"-?\d+\.?\d*(?:[eE][-+]?\d+)?", declared)
+    if len(pn) != len(dn) or not pn:
+        return False
+    return all(abs(float(a) - float(b)) <= 1e-5 * max(abs(float(b)), 1e-300) for a, b in zip(pn, dn))
+
+
 def mfront_query_behaviour(ck, b, gendir, note, hist, stats):
     fname = b.name + ".mfront"
     for h in b.hyps:
@@ -936,7 +961,7 @@ def mfront_query_behaviour(ck, b, gendir, note, hist, stats):
                 if v.eff_phys():
                     opts += ["--physical-bounds-type=" + v.ext, "--physical-bounds-value=" + v.ext]
                     exp += [v.eff_phys().kind(), v.eff_phys()]
-                if key == "pars" and v.size == 1:
+                if key == "pars" and v.size == 1 and not v.name.endswith("_time_step_scaling_factor"):
                     opts += ["--parameter-default-value=" + v.ext]
                     exp += [("num", v.dflt[0])]
                 rc, lines, err = mq(ck, gendir, fname, opts)
@@ -952,6 +977,8 @@ def mfront_query_behaviour(ck, b, gendir, note, hist, stats):
                             break
                 if bad:
                     cls = which[0].split("=")[0].strip("-") if which else "failure"
+                    if which and cls in ("bounds-value", "physical-bounds-value", "parameter-default-value") and close_to(which[1], which[2]):
+                        cls = "display-precision"
                     note("mfront-query:%s" % cls, "viol",
                          "mfront-query %s on %s prints `%s`, declared `%s`" % (which[0], fname, which[1], which[2]) if which else
                          "mfront-query %s on %s fails (exit %s)" % (" ".join(opts), fname, rc),
@@ -973,7 +1000,7 @@ def mfront_query_matprop(ck, m, gendir, note, hist, stats):
         stats["mq"] = stats.get("mq", 0) + 1
         hist["mfront-query:mp-default"] = hist.get("mfront-query:mp-default", 0) + 1
         if rc != 0 or len(lines) != 1 or not num_equal(lines[0], p.dflt[0]):
-            note("mfront-query:mp:parameter-default-value", "viol",
+            note("mfront-query:display-precision" if (lines and close_to(lines[0], p.dflt[0])) else "mfront-query:mp:parameter-default-value", "viol",
                  "mfront-query --parameter-default-value=%s on %s prints `%s`, declared `%s`" % (p.ext, fname, lines[0] if lines else "", p.dflt[0]),
                  {"material_property": m.name, "variable": p.ext, "mfront_file": m.text, "stdout": lines, "stderr": err[-500:]})
     for v in m.inputs + [m.output]:
@@ -997,7 +1024,13 @@ def mfront_query_matprop(ck, m, gendir, note, hist, stats):
                     break
         if bad:
             cls = which[0].split("=")[0].strip("-") if which else "failure"
-            note("mfront-query:mp:%s" % cls, "viol",
+            if which and cls.endswith("bounds-value") and close_to(which[1], which[2]):
+                key = "mfront-query:display-precision"
+            elif cls in ("has-bounds", "bounds-type", "bounds-value") or (cls == "failure" and v.bounds and not v.eff_phys()):
+                key = "mfront-query/src/MaterialPropertyQuery.cxx:bounds-queries-read-the-physical-bounds"
+            else:
+                key = "mfront-query:mp:%s" % cls
+            note(key, "viol",
                  "mfront-query %s on %s prints `%s`, declared `%s`" % (which[0], fname, which[1], which[2]) if which else
                  "mfront-query %s on %s fails (exit %s)" % (" ".join(opts), fname, rc),
                  {"material_property": m.name, "variable": v.ext, "mfront_file": m.text, "stdout": lines, "stderr": err[-500:]})
